@@ -62,6 +62,23 @@ thread_local! {
   static EMITTED: RefCell<Vec<(usize, Ev)>> = RefCell::new(vec![]);
 }
 
+/// all symbolic values of a two-thread script are pairwise different
+fn script_values_distinct(script: &[Vec<TOp>]) -> u32 {
+  let mut vals: Vec<Val> = vec![];
+  for o in script.iter().flatten() {
+    if let TOp::Feed(_, Ev::Next(v)) | TOp::Feed(_, Ev::Err(v)) = o {
+      vals.push(v.clone());
+    }
+  }
+  let mut t = crate::val::tt();
+  for i in 0..vals.len() {
+    for j in i + 1..vals.len() {
+      t = crate::val::b_and(t, crate::val::b_not(vals[i].eq_t(&vals[j])));
+    }
+  }
+  t
+}
+
 /// The order-insensitive part of C07 / C09 for a single-input pipeline, used where whole-operation serialisability
 /// is too coarse (three or more operations per thread: a timer firing *during* a next() call has no serial
 /// counterpart although nothing is lost, duplicated or reordered): the output's items, buffers flattened, are
@@ -755,7 +772,8 @@ fn c10_preempt_x(pipes: &[Pipe], nops: usize, max_preempt: u32, sample_closed: b
         }
       }
       if !e::valid(any) {
-        e::fail(&format!("last-item-withheld/{:?}", p), || format!("the source's last item {} was followed by silence, yet after every window has elapsed the subscriber has seen [{}]", v.show(), model::show_events(&got)));
+        let cond = crate::val::b_or(any, crate::val::b_not(script_values_distinct(&script)));
+        e::check(cond, &format!("last-item-withheld/{:?}", p), || format!("the source's last item {} was followed by silence, yet after every window has elapsed the subscriber has seen [{}]", v.show(), model::show_events(&got)));
       }
     }
   }
@@ -779,6 +797,9 @@ fn c10_preempt_x(pipes: &[Pipe], nops: usize, max_preempt: u32, sample_closed: b
     let orders = interleavings(script[0].len(), script[1].len());
     let mut ok = false;
     let mut shown = vec![];
+    // equality terms of the serial orders whose outcome has the right shape: the verdict "none of them" is put to
+    // the solver together with "all script values distinct", so that the model it returns replays concretely
+    let mut order_terms: Vec<u32> = vec![];
     for order in orders {
       world::reset_world();
       let rig2 = build(p);
@@ -805,6 +826,9 @@ fn c10_preempt_x(pipes: &[Pipe], nops: usize, max_preempt: u32, sample_closed: b
       if shape && e::valid(t) {
         ok = true;
         break;
+      }
+      if shape {
+        order_terms.push(t);
       }
       if shown.len() < 3 {
         shown.push(want.iter().map(|l| model::show_events(l)).collect::<Vec<_>>().join(" / "));
@@ -872,7 +896,12 @@ fn c10_preempt_x(pipes: &[Pipe], nops: usize, max_preempt: u32, sample_closed: b
       }
     }
     if !ok {
-      e::fail(&format!("not-serialisable/{:?}", p), || format!("concurrent run delivered [{}]; no serial order of the same operations does (e.g. {})", got.iter().map(|l| model::show_events(l)).collect::<Vec<_>>().join(" / "), shown.join(" | ")));
+      let mut any = crate::val::ff();
+      for t in &order_terms {
+        any = crate::val::b_or(any, *t);
+      }
+      let cond = crate::val::b_or(any, crate::val::b_not(script_values_distinct(&script)));
+      e::check(cond, &format!("not-serialisable/{:?}", p), || format!("concurrent run delivered [{}]; no serial order of the same operations does (e.g. {})", got.iter().map(|l| model::show_events(l)).collect::<Vec<_>>().join(" / "), shown.join(" | ")));
     }
   }
   e::cfg_end(&format!("{:?}", p));
